@@ -394,6 +394,7 @@ func runC09(c *Ctx) {
 		c.alsoUnder(map[string]string{"R02.3": "R09.5"}, nil, func() { c.r023(pk) })
 		c.alsoUnder(map[string]string{"R01.16": "R09.6"}, nil, func() { c.r0116(pk) })
 		c.r0911(pk)
+		c.r0912(pk)
 	}
 	// a JSON number without its leading zero (`.5`) is not JSON
 	c.alsoUnder(map[string]string{"R07.3": "R09.7", "R07.12": "R09.10"}, nil, func() { runC07own(c) })
@@ -954,4 +955,56 @@ func (c *Ctx) r0911(pk *packages.Package) {
 	}
 	c.R.Check(len(flags) > 0 && lexical, rule, "js.jsMinifier.minifyBlockAsStmt/braces kept for let, const and class", c.pos(bare.Ast()), "flag set for every LexicalDecl of the block scope", "the single item of a block is printed without braces although the block scope was not searched for lexical declarations: a class (or let/const) declaration becomes the body of a loop or if — a SyntaxError")
 	c.R.Check(len(flags) > 0 && funcDecl, rule, "js.jsMinifier.minifyBlockAsStmt/braces kept for a function declaration", c.pos(bare.Ast()), "flag set when the item is a *js.FuncDecl", "the single item of a block is printed without braces even when it is a function declaration: `while(a){function f(){}}` becomes `for(;a;)function f(){}`, a SyntaxError")
+}
+
+// R09.12: no optional chain through a tagged template.
+func (c *Ctx) r0912(pk *packages.Package) {
+	const rule = "R09.12"
+	c.R.Rule(rule, "ECMAScript forbids a template literal in an optional chain (`a?.`t``, `a?.b`t`` are early errors). js.toNullishExpr turns `a==null?undefined:a.b` into `a?.b` by walking from the guarded expression down to the variable and marking the link next to it optional: the walk descends only through *js.CallExpr, *js.DotExpr and *js.IndexExpr (set read off its type assertions), and no statement of package js sets the Optional field of a *js.TemplateExpr")
+	info := pk.TypesInfo
+	fd := c.fn(rule, pk, "toNullishExpr")
+	if fd != nil {
+		allowed := map[string]bool{"CallExpr": true, "DotExpr": true, "IndexExpr": true}
+		got := map[string]bool{}
+		ast.Inspect(fd.Body, func(x ast.Node) bool {
+			if ta, ok := x.(*ast.TypeAssertExpr); ok && ta.Type != nil {
+				if n := namedTypeName(deref(info.TypeOf(ta.Type))); strings.HasPrefix(n, pjs+".") {
+					got[n[len(pjs)+1:]] = true
+				}
+			}
+			return true
+		})
+		var extra []string
+		for t := range got {
+			if !allowed[t] {
+				extra = append(extra, "*js."+t)
+			}
+		}
+		sort.Strings(extra)
+		c.R.Check(len(extra) == 0 && len(got) >= 3, rule, "js.toNullishExpr/links an optional chain may run through", c.pos(fd), "call, member and index links only", "the walk also descends through "+strings.Join(extra, ", ")+": ``a==null?undefined:a.b`t` `` becomes ``a?.b`t` ``, which no parser accepts")
+	}
+	n := 0
+	for _, f := range load.FuncDecls(pk) {
+		if f.Body == nil {
+			continue
+		}
+		ast.Inspect(f.Body, func(x ast.Node) bool {
+			as, ok := x.(*ast.AssignStmt)
+			if !ok {
+				return true
+			}
+			for i, l := range as.Lhs {
+				sel, ok := l.(*ast.SelectorExpr)
+				if !ok || sel.Sel.Name != "Optional" || i >= len(as.Rhs) {
+					continue
+				}
+				n++
+				if namedTypeName(deref(info.TypeOf(sel.X))) == pjs+".TemplateExpr" {
+					c.R.Bad(rule, fmt.Sprintf("js.%s/%s", load.FuncName(f), nospace(str(l))), c.pos(as), "a tagged template is made the optional link of a chain: the output (``a?.`t` ``) is a SyntaxError")
+				}
+			}
+			return true
+		})
+	}
+	c.R.Floor(rule, "assignments to an Optional field", n, 3)
 }
